@@ -182,6 +182,25 @@ def check_futures(ctx, rule, P, G):
                 and c.func.attr == 'submit']
         for c in subs:
             n += 1
+            # the pool is local to the call and joined before the call can return or raise: `with <Executor>(..) as ex:`
+            # (leaving the block waits for every worker).  A pool that outlives the call lets a failed call return
+            # while sibling range reads are still running on the shared handle.
+            ex = c.func.value
+            q = parent(c)
+            scoped = False
+            while q is not None and q is not f.node:
+                if isinstance(q, ast.With):
+                    for it in q.items:
+                        if it.optional_vars is not None and U(it.optional_vars) == U(ex) and isinstance(it.context_expr, ast.Call) \
+                                and 'Executor' in U(it.context_expr.func):
+                            scoped = True
+                q = parent(q)
+            if not scoped:
+                ctx.fail(rule, f, stmt_of(c), 'work is submitted to `%s`, a pool that is not created and joined by this call (no '
+                         '`with ...Executor(...) as %s:` around it): when one range read fails the call raises while the other '
+                         'workers are still seeking and reading on the shared handle, and the caller\'s next read can get bytes '
+                         'from the wrong offset' % (U(ex), U(ex).split('.')[-1]), line=c.lineno, key_extra='pool-scope')
+                continue
             ok, why = future_consumed(f, c)
             if ok:
                 ctx.ok(rule, f, c, why)
